@@ -84,7 +84,7 @@ class SimLock:
         if me is None:  # not a simulated thread (driver before/after the run)
             self.owner = "driver"
             return True
-        s.shared_point(me, ("lock-acquire", self.name))
+        s.shared_point(me, ("lock-acquire", self.name, 0))
         while self.owner is not None and self.owner is not me:
             if not blocking:
                 return False
@@ -111,7 +111,7 @@ class SimLock:
             w.blocked_on = None
         me = s.current_sim()
         if me is not None:
-            s.shared_point(me, ("lock-release", self.name))
+            s.shared_point(me, ("lock-release", self.name, 0))
 
     def locked(self):
         return self.owner is not None
@@ -148,6 +148,7 @@ class Scheduler:
         if strategy["kind"] == "pct":
             self._prio = {}
         self._in_callback = False
+        self._shared_lines = shared_lines()
         self.gc_points: list[int] = sorted(strategy.get("gc_points", []))
         self.codes_line: set = set()
         self.codes_entry: set = set()
@@ -200,6 +201,14 @@ class Scheduler:
             self._pct_point(me)
         elif k == "skew":
             self._skew_point(me)
+        elif k == "rendezvous":
+            if self._parked is not None:
+                pt, _, since = self._parked
+                if pt is me:
+                    self._parked = None
+                elif self.total_events - since > st.get("patience", 300000) and not pt.done and pt.blocked_on is None:
+                    self._parked = None
+                    self._switch_to(me, pt, "patience")
         elif k == "repo":
             # hand-written repo code is where newly shared state would live: switch often there, rarely inside the
             # parser runtime, so that threads that reach repo code at different times still meet in it
@@ -239,8 +248,38 @@ class Scheduler:
         elif k == "repo":
             if self.rng.random() < st["p_line"]:
                 self._switch_random(me, "shared")
+        elif k == "rendezvous":
+            self._rendezvous_point(me, site)
 
     _burst_left = 0
+    _parked = None
+
+    def _rendezvous_point(self, me, site):
+        """Active-testing style: park a thread at a shared-state site until another thread arrives at a site of the same
+        group (same file / same lock), then interleave the two finely for a burst of shared points."""
+        st = self.strategy
+        grp = site[1] if isinstance(site, tuple) and len(site) > 1 else site
+        if self._parked is not None and self._parked[0] is me:
+            self._parked = None  # we are running again: no longer parked
+        if self._burst_left > 0:
+            self._burst_left -= 1
+            if self.rng.random() < 0.5:
+                self._switch_random(me, "burst")
+            return
+        if self._parked is None:
+            if len(self.switches) < self.max_switches and self.rng.random() < st["q"] and self._runnable(exclude=me):
+                self._parked = (me, grp, self.total_events)
+                self.probes["parked"] = self.probes.get("parked", 0) + 1
+                self._switch_random(me, "park")
+            return
+        pt, pgrp, since = self._parked
+        if pt is not me and grp == pgrp and not pt.done and pt.blocked_on is None:
+            self._parked = None
+            self._burst_left = st.get("burst_len", 16)
+            self.probes["rendezvous"] = self.probes.get("rendezvous", 0) + 1
+            if self.rng.random() < 0.7:
+                self._switch_to(me, pt, "rendezvous")
+
 
     def after_acquire(self, me: SimThread, lock):
         if self.replay is not None:
@@ -342,7 +381,12 @@ class Scheduler:
         me = self.by_ident.get(threading.get_ident())
         if me is None or me is not self.current:
             return None
-        self.point(me)
+        sl = self._shared_lines.get(code.co_filename)
+        if sl is not None and line in sl:
+            self.probes["shared_line_events"] = self.probes.get("shared_line_events", 0) + 1
+            self.shared_point(me, ("line", code.co_filename, line))
+        else:
+            self.point(me)
         return None
 
     def _cb_start(self, code, offset):
@@ -356,7 +400,7 @@ class Scheduler:
         me = self.by_ident.get(threading.get_ident())
         if me is None or me is not self.current:
             return None
-        self.shared_point(me, (code.co_name, offset))
+        self.shared_point(me, (code.co_name, code.co_filename, offset))
         return None
 
     def install(self, codes_line, codes_entry, codes_instr):
@@ -415,6 +459,91 @@ class Scheduler:
         if not ok:
             self.failure = self.failure or TimeoutError("simulation wall timeout")
         return self.failure
+
+
+_shared_lines_cache = None
+
+
+def shared_lines() -> dict:
+    """{file: frozenset(lines)} of hand-written repo code that visibly touches state shared between calls: a class
+    attribute reached through the class (`cls.x`, `SomeClass.x`, `self.__class__.x`), a name declared `global`, a
+    module-level name (subscript / attribute / call / store on it inside a function), or `self.<name>` where <name> is a
+    class-level attribute initialised with a mutable value. Computed from the tree under test, so that state a change
+    newly shares becomes a preferred switch point without anybody naming it."""
+    global _shared_lines_cache
+    if _shared_lines_cache is not None:
+        return _shared_lines_cache
+    import ast
+
+    root = os.path.join(repo_dir(), "explorerscript")
+    files = []
+    for d, dirs, fs in os.walk(root):
+        dirs[:] = [x for x in dirs if x not in ("antlr", "__pycache__", "pygments")]
+        files += [os.path.join(d, f) for f in fs if f.endswith(".py")]
+    trees = {}
+    class_names = set()
+    for f in files:
+        try:
+            trees[f] = ast.parse(open(f, encoding="utf-8").read())
+        except SyntaxError:
+            continue
+        for n in ast.walk(trees[f]):
+            if isinstance(n, ast.ClassDef):
+                class_names.add(n.name)
+    MUT = (ast.List, ast.Dict, ast.Set, ast.ListComp, ast.DictComp, ast.SetComp, ast.Call, ast.Constant)
+    out = {}
+    for f, tree in trees.items():
+        lines = set()
+        mod_names = set()
+        for st in tree.body:
+            tg = []
+            if isinstance(st, ast.Assign):
+                tg = st.targets
+                val = st.value
+            elif isinstance(st, ast.AnnAssign) and st.value is not None:
+                tg = [st.target]
+                val = st.value
+            else:
+                continue
+            if isinstance(val, MUT) and not (isinstance(val, ast.Constant) and isinstance(val.value, (str, int, float, bytes, bool)) and val.value is not None and not isinstance(val.value, bool)):
+                for t in tg:
+                    if isinstance(t, ast.Name) and not t.id.isupper() and t.id not in ("logger",):
+                        mod_names.add(t.id)
+        class_mut_attrs = {}
+        for cls in [n for n in ast.walk(tree) if isinstance(n, ast.ClassDef)]:
+            names = set()
+            for st in cls.body:
+                if isinstance(st, ast.Assign) and isinstance(st.value, (ast.List, ast.Dict, ast.Set, ast.Call)):
+                    names |= {t.id for t in st.targets if isinstance(t, ast.Name)}
+                elif isinstance(st, ast.AnnAssign) and st.value is not None and isinstance(st.value, (ast.List, ast.Dict, ast.Set, ast.Call)) and isinstance(st.target, ast.Name):
+                    names.add(st.target.id)
+            class_mut_attrs[cls] = names
+        for fn in [n for n in ast.walk(tree) if isinstance(n, (ast.FunctionDef, ast.AsyncFunctionDef))]:
+            globs = set()
+            for n in ast.walk(fn):
+                if isinstance(n, ast.Global):
+                    globs |= set(n.names)
+            owner_attrs = set()
+            for cls, names in class_mut_attrs.items():
+                if fn in cls.body:
+                    owner_attrs = names
+            for n in ast.walk(fn):
+                if isinstance(n, ast.Attribute):
+                    v = n.value
+                    if isinstance(v, ast.Name) and (v.id == "cls" or v.id in class_names) and not n.attr.isupper():
+                        # ClassName.method(...) calls and enum members are not state
+                        if not (v.id in class_names and (n.attr[:1].isupper() or n.attr.startswith("create_") or n.attr.startswith("from_"))):
+                            lines.add(n.lineno)
+                    elif isinstance(v, ast.Attribute) and v.attr == "__class__":
+                        lines.add(n.lineno)
+                    elif isinstance(v, ast.Name) and v.id == "self" and n.attr in owner_attrs:
+                        lines.add(n.lineno)
+                elif isinstance(n, ast.Name) and (n.id in globs or n.id in mod_names):
+                    lines.add(n.lineno)
+        if lines:
+            out[f] = frozenset(lines)
+    _shared_lines_cache = out
+    return out
 
 
 _code_groups_cache = None
